@@ -195,3 +195,25 @@ Proof.
   rewrite HDs. cbn [fst snd]. rewrite Nat.eqb_refl. cbn [negb].
   destruct (T <? 3)%nat eqn:E3; [apply Nat.ltb_lt in E3; lia|]. reflexivity.
 Qed.
+
+(* ---- a plate's score inside any plate list is its score when scored alone ---- *)
+Theorem hetero_alone orc T D df ts before pl after :
+  (0 < T)%nat -> Forall (plate_wf T) (before ++ pl :: after) -> Forall (triple_valid T) ts ->
+  nth (length before) (hetero orc (before ++ pl :: after) D df ts) None
+  = nth 0 (hetero orc [pl] D df ts) None.
+Proof.
+  intros HT Hwf Hts.
+  assert (Hpl : plate_wf T pl).
+  { rewrite Forall_forall in Hwf. apply Hwf. apply in_or_app. right. now left. }
+  rewrite !(hetero_eq_direct orc T) by (assumption || (constructor; [assumption|constructor])).
+  rewrite map_app. rewrite app_nth2 by (rewrite map_length; lia).
+  rewrite map_length, Nat.sub_diag. reflexivity.
+Qed.
+
+Theorem homo_eq_direct orc T preds variances D df ts :
+  (0 < T)%nat -> length preds = length variances ->
+  Forall (plate_wf T) (homo_plates preds variances) -> Forall (triple_valid T) ts ->
+  homo orc preds variances D df ts = map (direct orc D df ts) (homo_plates preds variances).
+Proof.
+  intros HT Hlen Hwf Hts. rewrite homo_eq_hetero by exact Hlen. now apply (hetero_eq_direct orc T).
+Qed.
